@@ -23,6 +23,7 @@
 #include "keywords.hpp"
 #include "libparser.h"
 
+#include "utap/ExpressionBuilder.hpp"
 #include "utap/utap.h"
 
 #include <libxml/parser.h>
@@ -360,6 +361,8 @@ private:
     /** Parse optional label. */
     bool label(bool required = false, const std::string& kind = "");
     int invariant(std::string& text, std::string& xpath);
+    /** Parse one text block found at the given XPath. */
+    int parse(const char* text, xta_part_t syntax, const std::string& xpath);
     /** Parse optional committed tag. */
     bool committed();
     /** Parse optional urgent tag. */
@@ -554,9 +557,29 @@ const std::string& XMLReader::get_name(const char* id) const
     throw XMLDocError("Missing reference");
 }
 
-int XMLReader::parse(const xmlChar* text, xta_part_t syntax)
+int XMLReader::parse(const xmlChar* text, xta_part_t syntax) { return parse((const char*)text, syntax, path.str()); }
+
+int XMLReader::parse(const char* text, xta_part_t syntax, const std::string& xpath)
 {
-    return parse_XTA((const char*)text, parser, newxta, syntax, path.str());
+    // A block that fails to parse must not leave the operands of its unfinished expressions behind:
+    // whoever takes expressions from the builder's stack next would get those instead of its own.
+    auto* builder = dynamic_cast<ExpressionBuilder*>(parser);
+    const auto depth = (builder != nullptr) ? builder->getExpressions().size() : 0;
+    const auto res = parse_XTA(text, parser, newxta, syntax, xpath);
+    if (builder != nullptr) {
+        auto& expressions = builder->getExpressions();
+        if (res != 0) {
+            while (expressions.size() > depth)
+                expressions.pop();
+        } else if ((syntax == S_INVARIANT || syntax == S_EXPONENTIAL_RATE) && expressions.size() > depth + 1) {
+            // these two leave their one result on the stack; error recovery inside the text may have left more below it
+            const auto result = expressions[0];
+            while (expressions.size() > depth)
+                expressions.pop();
+            expressions.push(result);
+        }
+    }
+    return res;
 }
 
 bool XMLReader::declaration()
@@ -766,9 +789,9 @@ bool XMLReader::location()
                 }
             }
             if (has_inv)
-                l_invariant = parse_XTA(inv_text.c_str(), parser, newxta, S_INVARIANT, inv_path) == 0;
+                l_invariant = parse(inv_text.c_str(), S_INVARIANT, inv_path) == 0;
             if (has_rate)
-                l_exponentialRate = parse_XTA(rate_text.c_str(), parser, newxta, S_EXPONENTIAL_RATE, rate_path) == 0;
+                l_exponentialRate = parse(rate_text.c_str(), S_EXPONENTIAL_RATE, rate_path) == 0;
             /* Is the location urgent or committed? */
             bool l_urgent = urgent();
             bool l_committed = committed();
